@@ -57,6 +57,11 @@ pub struct Teardown {
     /// single-issuer ring does for a call from another thread).
     #[serde(default)]
     pub refuse_unregister: bool,
+    /// Right after the Ring was dropped every remaining future is polled
+    /// once: nothing may be published, nothing may panic, and only an
+    /// operation whose final completion the Ring consumed may resolve.
+    #[serde(default)]
+    pub poll_after_ring: bool,
 }
 
 #[derive(Clone, Debug, Serialize, Deserialize)]
@@ -1546,6 +1551,9 @@ impl<'a> Exec<'a> {
                                 }
                             }
                         }
+                        if t.poll_after_ring {
+                            self.poll_all_after_ring();
+                        }
                         if t.wake_after {
                             if let Some(sq) = self.world.sq.as_ref().or(extra_sq.iter().flatten().next()) {
                                 let before = sim::events_len();
@@ -1670,7 +1678,7 @@ impl<'a> Exec<'a> {
             }
             let leaks = track::live_since(self.world.mark);
             if !leaks.is_empty() {
-                let desc: Vec<String> = leaks.iter().take(4).map(|b| format!("{:#x}+{} tag {}", b.addr, b.size, b.tag)).collect();
+                let desc: Vec<String> = leaks.iter().take(4).map(|b| format!("{:#x}+{} tag {} words {:x?}", b.addr, b.size, b.tag, (0..b.size.min(48) / 8).map(|k| unsafe { ((b.addr + 8 * k) as *const usize).read() }).collect::<Vec<_>>())).collect();
                 let overflowed = sim::sim().rings.iter().any(|r| r.fd == ring_fd && !r.overflow.is_empty());
                 let sig = if overflowed { "C12:leak-at-end:cq-overflow-at-ring-drop" } else { "C12:leak-at-end" };
                 self.violation(sig, format!("{} blocks allocated during the history are still live after everything was dropped: {}", leaks.len(), desc.join(", ")));
@@ -1691,6 +1699,58 @@ impl<'a> Exec<'a> {
         sim::sim().cfg.register_fail = None;
         track::forget_since(self.world.mark);
         self.feats.clone()
+    }
+
+    /// Teardown: poll every remaining future once after the Ring is gone.
+    fn poll_all_after_ring(&mut self) {
+        self.sync_events();
+        self.update_consumed();
+        for i in 0..self.ops.len() {
+            if self.stop || self.ops[i].fut.is_none() {
+                continue;
+            }
+            let (_, tail, _, _, _) = self.ring_words();
+            let consumed = self.ops[i].final_consumed;
+            let started = self.ops[i].phase == Phase::Submitted;
+            let waker = self.ops[i].waker.waker.clone();
+            let mut cx = Context::from_waker(&waker);
+            let fut = self.ops[i].fut.as_mut().unwrap();
+            let result = {
+                let _s = track::scope(track::TAG_A10);
+                catch(|| fut.poll(&mut cx).is_ready())
+            };
+            self.feat("polled-after-ring-drop");
+            match result {
+                Err((msg, loc)) => {
+                    std::mem::forget(self.ops[i].fut.take());
+                    self.ops[i].phase = Phase::Dropped;
+                    self.violation("C12:panic:poll-after-ring", format!("polling operation {i} ({}) after the Ring was dropped panicked at {loc}: {msg}", self.ops[i].st.kind.name()));
+                    return;
+                }
+                Ok(ready) => {
+                    let (_, tail_after, _, _, _) = self.ring_words();
+                    if tail_after != tail {
+                        self.violation("C12:submission-after-ring-drop", format!("polling operation {i} after the Ring was dropped published {} submissions nobody will submit", tail_after.wrapping_sub(tail)));
+                        return;
+                    }
+                    if ready && !(started && consumed) {
+                        self.violation("C12:resolved-without-completion", format!("operation {i} ({}) resolved when polled after the Ring was dropped although the Ring never consumed a final completion for it", self.ops[i].st.kind.name()));
+                        return;
+                    }
+                    if ready {
+                        // Resolved: the future is finished, drop it here.
+                        let fut = self.ops[i].fut.take();
+                        {
+                            let _s = track::scope(track::TAG_A10);
+                            let _ = catch(|| drop(fut));
+                        }
+                        self.ops[i].phase = Phase::Dropped;
+                        self.feat("resolved-after-ring-drop");
+                    }
+                }
+            }
+        }
+        self.sync_events();
     }
 
     fn teardown_drop_op(&mut self, i: usize, on_thread: bool, ring_gone: bool) {
